@@ -11,10 +11,11 @@ JSON *texts* (RFC 8259 grammar over bytes) for property C20: the elements / entr
     string bodies match the RFC string grammar (`strBodyOk`: no raw quote, no control byte, every backslash opens
     one of `\" \\ \/ \b \f \n \r \t \uXXXX`), white-space fields hold only the four white-space bytes.
     No UTF-8 validity is asked for (the element scanner of `encoding/json` does not ask for it either).
-  * `isJsonText : Bytes → Bool` — the decidable predicate on BYTES: a witness parser `parseV` (not trusted, no theorem
-    about it is needed) proposes a tree, the predicate accepts when the tree is well-formed and renders to exactly the
-    given bytes.  `isJsonText e = true → ∃ t, t.wf ∧ render t = e` holds by construction.  The driver evaluates it on
-    every element of every generated case, so every compared document lies inside the domain of the theorems.
+  * `isJsonText : Bytes → Bool` — the decidable predicate on BYTES: a witness parser `parseV` proposes a tree, the
+    predicate accepts when the tree is well-formed and renders to exactly the given bytes.  Soundness
+    (`isJsonText e = true → ∃ t, t.wf ∧ render t = e`) holds by construction, whatever the parser does; completeness
+    (`t.wf → isJsonText (render t) = true`) is `Proofs/JsonParseComplete.lean`.  The driver evaluates it on every
+    element of every generated case, so every compared document lies inside the domain of the theorems.
   * `unescape` — decoding of an object key (`Decoder.Token()` returns the key as a Go string): Go's `unquote`
     for well-formed bodies whose raw bytes are valid UTF-8.
 
@@ -218,7 +219,8 @@ def JEnts.ofList : List (Bytes × JT) → JEnts
 
 /-! ## a witness parser and the decidable predicate on bytes
 
-The parser is NOT part of the trusted base: `isJsonText` re-renders the proposed tree and compares. -/
+The parser is NOT part of the trusted base: `isJsonText` re-renders the proposed tree and compares; that it finds a
+tree for every well-formed text is proved in `Proofs/JsonParseComplete.lean`. -/
 
 def takeWs : Bytes → Bytes × Bytes
   | [] => ([], [])
@@ -376,5 +378,41 @@ def unescape : Nat → Bytes → Bytes
 
 /-- the Go string of a key body -/
 def decodeKey (body : Bytes) : Bytes := unescape (body.length + 1) body
+
+/-! ## the documents the harness builds (`c20buildArrDoc` / `c20buildObjDoc` in harness/run/c20.go)
+
+`wsf i` = the white space put at position `i` of the document; the patterns `wsOf 0 … 3` are the ones the generator
+uses (3 = all four white-space bytes, runs of up to four, position-dependent). -/
+
+def wsOf (ws : Nat) (i : Nat) : Bytes :=
+  match ws with
+  | 0 => []
+  | 1 => [0x20]
+  | 2 => match i % 4 with | 0 => [0x0A, 0x09] | 1 => [] | 2 => [0x20, 0x20, 0x0D] | _ => [0x09]
+  | _ => match (i * 5 + i / 4) % 6 with
+    | 0 => [0x20] | 1 => [0x0D, 0x0A] | 2 => [0x09, 0x20, 0x0A, 0x0D] | 3 => [] | 4 => [0x0A] | _ => [0x0D]
+
+/-- ws e ws "," ws e ws … -/
+def arrDocGo (wsf : Nat → Bytes) : Nat → List Bytes → Bytes
+  | _, [] => []
+  | i, [e] => wsf i ++ e ++ wsf (i + 1)
+  | i, e :: r => wsf i ++ e ++ wsf (i + 1) ++ [bComma] ++ arrDocGo wsf (i + 2) r
+
+/-- ws "[" (ws e ws ",")* "]" ws -/
+def arrDoc (wsf : Nat → Bytes) (es : List Bytes) : Bytes :=
+  wsf 7 ++ [bLBr] ++ arrDocGo wsf 0 es ++ (if es.isEmpty then wsf 3 else []) ++ [bRBr] ++ wsf 5
+
+/-- ws "key" ws ":" ws value ws -/
+def objEnt (wsf : Nat → Bytes) (i : Nat) (kv : Bytes × Bytes) : Bytes :=
+  wsf i ++ [bQuote] ++ kv.1 ++ [bQuote] ++ wsf (i + 1) ++ [bColon] ++ wsf (i + 2) ++ kv.2 ++ wsf (i + 3)
+
+def objDocGo (wsf : Nat → Bytes) : Nat → List (Bytes × Bytes) → Bytes
+  | _, [] => []
+  | i, [e] => objEnt wsf i e
+  | i, e :: r => objEnt wsf i e ++ [bComma] ++ objDocGo wsf (i + 4) r
+
+/-- entries are (key body — the escaped form between the quotes, value text) -/
+def objDoc (wsf : Nat → Bytes) (es : List (Bytes × Bytes)) : Bytes :=
+  wsf 7 ++ [bLBc] ++ objDocGo wsf 0 es ++ (if es.isEmpty then wsf 3 else []) ++ [bRBc] ++ wsf 5
 
 end ShpanVerif.Model.JsonText
